@@ -24,7 +24,8 @@ def mutate(data, rng, others):
     """returns (mutated bytes, description)"""
     b = bytearray(data)
     kind = rng.choice(["flip", "flip", "byte", "byte", "trunc", "splice", "dup", "insert", "field32", "field32", "field64",
-                       "zero-run", "ff-run", "marker-field", "marker-field"])
+                       "zero-run", "ff-run", "marker-field", "marker-field", "cut-front", "size-boundary", "size-boundary",
+                       "append-tag"])
     n = len(b)
     if n == 0:
         return bytes(rng.randrange(256) for _ in range(rng.randrange(1, 64))), "random"
@@ -60,6 +61,63 @@ def mutate(data, rng, others):
         v &= (1 << (8 * w)) - 1
         enc = v.to_bytes(w, rng.choice(["big", "little"]))
         b[i:i + w] = enc
+    elif kind == "cut-front":
+        # drop the start of the file, preferably up to a little behind a structure marker (a tag whose header is gone,
+        # a stream that starts in the middle of a page)
+        marks = []
+        for m in (b"APETAGEX", b"ID3", b"TAG", b"OggS", b"fLaC", b"moov", b"ftyp", b"RIFF", b"FORM", b"MAC ", b"wvpk"):
+            j = bytes(b).find(m)
+            while j >= 0 and len(marks) < 40:
+                marks.append(j); j = bytes(b).find(m, j + 1)
+        if marks and rng.random() < 0.7:
+            k = rng.choice(marks) + rng.choice([0, 1, 4, 8, 10, 31, 32, 33, 40])
+        else:
+            k = rng.randrange(1, min(n, 4096) + 1)
+        b = b[min(k, n):]
+    elif kind == "size-boundary":
+        # a length field of a tag/chunk header set to a value around the real distances in this file
+        def syncsafe(v):
+            v &= (1 << 28) - 1
+            return bytes([(v >> 21) & 0x7F, (v >> 14) & 0x7F, (v >> 7) & 0x7F, v & 0x7F])
+        targets = []
+        raw = bytes(b)
+        if raw[:3] == b"ID3" and n > 10:
+            targets.append((6, "syncsafe"))
+        j = raw.find(b"APETAGEX")
+        while j >= 0 and len(targets) < 12:
+            targets.append((j + 12, "little")); targets.append((j + 16, "little")); j = raw.find(b"APETAGEX", j + 1)
+        for m, off, enc in ((b"fLaC", 5, "big3"), (b"OggS", 26, "byte"), (b"RIFF", 4, "little"), (b"FORM", 4, "big"), (b"moov", -4, "big"),
+                            (b"udta", -4, "big"), (b"meta", -4, "big"), (b"ilst", -4, "big"), (b"mdat", -4, "big"), (b"ID3 ", 4, "big"),
+                            (b"id3 ", 4, "little"), (b"DSD ", 12, "little8"), (b"DSD ", 20, "little8")):
+            j = raw.find(m)
+            if j >= 0 and 0 <= j + off < n - 8:
+                targets.append((j + off, enc))
+        if targets:
+            i, enc = rng.choice(targets)
+            d = rng.choice([0, 1, -1, 2, 10, -10, 32, -32, 64, 127, 128, 129, 200, -128, rng.randrange(-300, 300)])
+            v = max(0, rng.choice([n - i, n - i - 4, n - i - 10, n, n - 128 - i, n - 128, n - 32 - i, i]) + d)
+            if enc == "syncsafe":
+                b[i:i + 4] = syncsafe(v)
+            elif enc == "big3":
+                b[i:i + 3] = (v & 0xFFFFFF).to_bytes(3, "big")
+            elif enc == "byte":
+                b[i] = v & 0xFF
+            elif enc == "little8":
+                b[i:i + 8] = (v & (2 ** 64 - 1)).to_bytes(8, "little")
+            else:
+                b[i:i + 4] = (v & 0xFFFFFFFF).to_bytes(4, enc)
+        else:
+            b[rng.randrange(n)] ^= 0xFF
+    elif kind == "append-tag":
+        # another tag family's block at the end (ID3v1, APEv2 with or without header) - possibly after damaging a size
+        v1 = b"TAG" + bytes(rng.choice([0, 65, 66, 0x20]) for _ in range(122)) + bytes([0, 1, 12])
+        item = (3).to_bytes(4, "little") + bytes(4) + b"Key\0abc"
+        foot = b"APETAGEX" + (2000).to_bytes(4, "little") + (len(item) + 32).to_bytes(4, "little") + (1).to_bytes(4, "little")
+        ape = foot + (0xA0000000).to_bytes(4, "little") + bytes(8) + item + foot + (0x80000000).to_bytes(4, "little") + bytes(8)
+        b = b + bytearray(rng.choice([v1, ape, ape + v1, ape[32:], v1[:rng.randrange(120, 128)]]))
+        if rng.random() < 0.5 and bytes(b[:3]) == b"ID3" and len(b) > 10:
+            v = max(0, len(b) - 10 - rng.randrange(0, 200))
+            b[6:10] = bytes([(v >> 21) & 0x7F, (v >> 14) & 0x7F, (v >> 7) & 0x7F, v & 0x7F])
     elif kind == "zero-run":
         i = rng.randrange(n); b[i:i + rng.randrange(1, 64)] = bytes(rng.randrange(1, 64))
     elif kind == "ff-run":
@@ -188,6 +246,21 @@ def run(ctx, tasks=None):
                     n, sd = line.rsplit(" ", 1)
                     if n in names:
                         tasks.insert(0, (n, int(sd)))
+    # the corpus of minimised hard inputs runs first (harness/corpus/c04: inputs that once escaped or hung)
+    cdir = os.path.join(os.path.dirname(os.path.dirname(os.path.abspath(__file__))), "corpus", "c04")
+    if os.path.isdir(cdir) and tasks is not None and len(tasks) > 1:
+        _init_worker(repo)
+        for fn in sorted(os.listdir(cdir)):
+            with open(os.path.join(cdir, fn), "rb") as h:
+                blob = h.read()
+            for op in _W["ops"]:
+                res, opened = run_protocol(op, blob, _W["File"], _W["Metadata"], _W["ME"])
+                ctx.case(key=("corpus", fn, getattr(op, "__name__", str(op))), nontrivial=True, modelled=False)
+                ctx.hist["corpus"] += 1
+                for step, what, detail in res:
+                    ctx.violation(what if what != "hang" else "hang:%s:%s" % (getattr(op, "__name__", "?"), step),
+                                  "%s: %s.%s on corpus input %s: %s" % (what, getattr(op, "__name__", "?"), step, fn, detail),
+                                  {"corpus": fn, "opener": getattr(op, "__name__", "?"), "step": step})
     with multiprocessing.Pool(min(16, os.cpu_count() or 4), initializer=_init_worker, initargs=(repo,)) as pool:
         for sample, seed, kind, size, changed, calls, past_open, findings in pool.imap_unordered(_work, tasks, chunksize=8):
             ctx.case(key=(sample, seed), nontrivial=(changed and past_open > 0), modelled=False, n=1,
